@@ -121,6 +121,111 @@ def classify(msg):
     return "other"
 
 
+
+# ---------------------------------------------------------------------------
+# extracted model (speed-up for volume; a sample of the same cases is also evaluated inside Coq)
+# ---------------------------------------------------------------------------
+
+DRIVER_ML = r"""(* C10 correspondence driver: one case per input line (space-separated code points);
+   prints the model's result in a canonical text form.  Only int <-> N conversion and printing. *)
+open Lexmodel
+let rec pos_of_int i = if i = 1 then XH else if i land 1 = 1 then XI (pos_of_int (i lsr 1)) else XO (pos_of_int (i lsr 1))
+let n_of_int i = if i = 0 then N0 else Npos (pos_of_int i)
+let rec int_of_pos = function XH -> 1 | XO p -> 2 * int_of_pos p | XI p -> 2 * int_of_pos p + 1
+let int_of_n = function N0 -> 0 | Npos p -> int_of_pos p
+let str_out b l = List.iteri (fun i c -> if i > 0 then Buffer.add_char b ' '; Buffer.add_string b (string_of_int (int_of_n c))) l
+let () =
+  try
+    while true do
+      let line = input_line stdin in
+      let codes = List.filter (fun s -> s <> "") (String.split_on_char ' ' line) in
+      let s = List.map (fun x -> n_of_int (int_of_string x)) codes in
+      let b = Buffer.create 1024 in
+      (match run s with
+       | XToks ts ->
+           Buffer.add_string b "T";
+           List.iter (fun ((((sy, tx), l), a), c) ->
+               Buffer.add_char b '|'; str_out b sy; Buffer.add_char b ','; str_out b tx;
+               Buffer.add_string b (Printf.sprintf ",%d,%d,%d" (int_of_n l) (int_of_n a) (int_of_n c))) ts
+       | XErrToken (l, a, c) -> Buffer.add_string b (Printf.sprintf "E %d %d %d" (int_of_n l) (int_of_n a) (int_of_n c))
+       | XErrIndent (l, a, c) -> Buffer.add_string b (Printf.sprintf "I %d %d %d" (int_of_n l) (int_of_n a) (int_of_n c))
+       | XErrInternal -> Buffer.add_string b "X");
+      print_endline (Buffer.contents b)
+    done
+  with End_of_file -> ()
+"""
+
+
+def build_extracted(ctx):
+    """Extract `run_tokenize code_table` (ExtrOcamlBasic only) and build the driver.  -> (exe, log)"""
+    d = os.path.join(ctx.bdir, "extract")
+    import shutil
+    shutil.rmtree(d, ignore_errors=True)
+    os.makedirs(d)
+    with open(os.path.join(d, "LexExtr.v"), "w") as f:
+        f.write("Require Import EmbossV.Lex.Exec EmbossVGen.%s.\n" % GEN_TABLE)
+        f.write("Require Extraction. Require Import ExtrOcamlBasic.\n")
+        f.write("Definition run (s : list BinNums.N) := run_tokenize code_table s.\n")
+        f.write('Extraction "lexmodel.ml" run.\n')
+    rc, out = fw.coqc(os.path.join(d, "LexExtr.v"), timeout=600)
+    if rc != 0:
+        return None, out
+    open(os.path.join(d, "driver.ml"), "w").write(DRIVER_ML)
+    rc, out = fw.sh(["ocamlfind", "ocamlopt", "lexmodel.mli", "lexmodel.ml", "driver.ml", "-o", "lexdrv"], cwd=d, timeout=600)
+    if rc != 0:
+        return None, out
+    return os.path.join(d, "lexdrv"), ""
+
+
+def canon(res):
+    def codes(x):
+        return " ".join(str(ord(c)) for c in x)
+    if res[0] == "toks":
+        return "T" + "".join("|%s,%s,%d,%d,%d" % (codes(s), codes(x), l, a, b) for s, x, l, a, b in res[1])
+    if res[0] == "err":
+        return "%s %d %d %d" % ("E" if res[1] == "token" else "I", res[2], res[3], res[4])
+    return "PYTHON-CRASH"
+
+
+def run_extracted(exe, texts, nproc=8):
+    """-> list of canonical result strings (one per text)"""
+    import subprocess
+    chunks = [texts[i::nproc] for i in range(nproc)]
+    procs = []
+    for ch in chunks:
+        data = "".join(" ".join(str(ord(c)) for c in t) + "\n" for t in ch)
+        p = subprocess.Popen("ulimit -s unlimited 2>/dev/null; exec '%s'" % exe, shell=True, stdin=subprocess.PIPE,
+                             stdout=subprocess.PIPE, stderr=subprocess.PIPE, text=True)
+        procs.append((p, data))
+    import threading
+    outs = [None] * nproc
+
+    def work(k):
+        p, data = procs[k]
+        try:
+            o, e = p.communicate(data, timeout=1500)
+            outs[k] = (p.returncode, o, e)
+        except subprocess.TimeoutExpired:
+            p.kill()
+            outs[k] = (124, "", "timeout")
+    th = [threading.Thread(target=work, args=(k,)) for k in range(nproc)]
+    for x in th:
+        x.start()
+    for x in th:
+        x.join()
+    res = [None] * len(texts)
+    for k in range(nproc):
+        rc, o, e = outs[k]
+        lines = o.split("\n")
+        if lines and lines[-1] == "":
+            lines.pop()
+        n = len(chunks[k])
+        if rc != 0 or len(lines) != n:
+            lines = (lines + ["MODEL-DRIVER-FAILED rc=%s %s" % (rc, e[-200:].replace("\n", " "))] * n)[:n]
+        for j, l in enumerate(lines):
+            res[k + j * nproc] = l
+    return res
+
 # ---------------------------------------------------------------------------
 # instance file (facts about the regenerated table, re-checked each run)
 # ---------------------------------------------------------------------------
@@ -167,16 +272,16 @@ def generate_inputs(ctx, t, corpus):
     g = lg.Gen(ctx.rng, t, corpus)
     big = ctx.thorough()
     plan = [
-        ("soup", 1500 if big else 260, lambda: g.soup(False)),
-        ("soup-adjacent", 1500 if big else 260, lambda: g.soup(True)),
-        ("boundary", 2500 if big else 420, g.boundary),
-        ("random-short", 2500 if big else 420, g.random_short),
-        ("terminators", 800 if big else 140, g.terminators),
-        ("unicode-ws", 800 if big else 140, g.unicode_ws),
-        ("indent-walk", 1500 if big else 260, g.indent_walk),
-        ("corpus-mutated", 600 if big else 90, lambda: g.mutate(g.corpus_slice()[1])),
-        ("corpus-slice", 200 if big else 40, lambda: g.corpus_slice()[1]),
-        ("long-line", 24 if big else 6, lambda: g.long_line(ctx.rng.choice([600, 2000, 6000] if big else [600, 2000]))),
+        ("soup", 9000 if big else 2000, lambda: g.soup(False)),
+        ("soup-adjacent", 9000 if big else 2000, lambda: g.soup(True)),
+        ("boundary", 12000 if big else 2500, g.boundary),
+        ("random-short", 12000 if big else 2500, g.random_short),
+        ("terminators", 4000 if big else 800, g.terminators),
+        ("unicode-ws", 4000 if big else 800, g.unicode_ws),
+        ("indent-walk", 8000 if big else 1600, g.indent_walk),
+        ("corpus-mutated", 4000 if big else 700, lambda: g.mutate(g.corpus_slice()[1])),
+        ("corpus-slice", 800 if big else 150, lambda: g.corpus_slice()[1]),
+        ("long-line", 60 if big else 12, lambda: g.long_line(ctx.rng.choice([600, 2000, 6000] if big else [600, 2000]))),
     ]
     out = []
     for s in lg.EDGE:
@@ -309,16 +414,46 @@ def run(ctx):
     ctx.count("chars-total", sum(len(c[2]["text"]) for c in cases))
     ctx.count("tokens-total", sum(len(c[2]["res"][1]) for c in cases if c[2]["res"][0] == "toks"))
 
-    ctx.extra["t_before_coq"] = round(time.time() - ctx.t0, 1)
+    ctx.extra["t_before_model"] = round(time.time() - ctx.t0, 1)
+    bad = []          # (index, model output text)
+    exe, log = build_extracted(ctx)
+    ctx.obligation("model extracted to OCaml (ExtrOcamlBasic only) and driver built", exe is not None)
+    if exe is None:
+        ctx.violation("harness-extraction", "extraction / OCaml build failed", dict(kind="harness", log=log[-3000:]), found_input=False)
+        coq_idx = list(range(len(cases)))[:3000]
+    else:
+        outs = run_extracted(exe, [c[2]["text"] for c in cases])
+        for i, (c, o) in enumerate(zip(cases, outs)):
+            if o != canon(c[2]["res"]):
+                bad.append((i, o[:3000]))
+        ctx.obligation("correspondence (extracted model): model = tokenizer.tokenize on %d texts (token lists with positions / error spans)"
+                       % len(cases), not bad)
+        # the same comparison inside Coq (vm_compute) on a sample: extraction is a speed-up, not a premise
+        fixed = [i for i, c in enumerate(cases) if c[2]["shape"] in ("edge", "corpus-replay", "replay", "codepoint-sweep")]
+        rest = [i for i, c in enumerate(cases) if c[2]["shape"] not in ("edge", "corpus-replay", "replay", "codepoint-sweep") and len(c[2]["text"]) <= 1500]
+        k = min(len(rest), 1500 if ctx.thorough() else 260)
+        coq_idx = fixed + ctx.rng.sample(rest, k)
+    sub = [cases[i] for i in coq_idx]
     runner = fw.CoqCases(ctx, "tok", HEADER + "Open Scope N_scope.\n", "run_tokenize code_table", "xresult_eqb",
-                         "str", "xresult", shard=max(40, len(cases) // (3 * fw.NPROC) + 1), timeout=1500)
-    bad = runner.run(cases)
-    ctx.extra["t_after_coq"] = round(time.time() - ctx.t0, 1)
+                         "str", "xresult", shard=max(10, len(sub) // (2 * fw.NPROC) + 1), timeout=1500)
+    bad_coq = runner.run(sub)
+    ctx.extra["t_after_model"] = round(time.time() - ctx.t0, 1)
+    ctx.obligation("correspondence (inside Coq, vm_compute): model = tokenizer.tokenize on %d of these texts" % len(sub), not bad_coq)
+    have = {i for i, _ in bad}
+    for j, outtxt in bad_coq:
+        if coq_idx[j] not in have:
+            bad.append((coq_idx[j], outtxt))
+    if exe is not None:
+        coq_bad = {coq_idx[j] for j, _ in bad_coq}
+        disagree = [i for i in coq_idx if (outs[i] != canon(cases[i][2]["res"])) != (i in coq_bad)]
+        ctx.obligation("extracted model and in-Coq evaluation agree on the sample", not disagree)
+        if disagree:
+            ctx.violation("harness-extraction", "extracted OCaml and vm_compute disagree on %r" % cases[disagree[0]][2]["text"][:100],
+                          dict(kind="harness", text=cases[disagree[0]][2]["text"]), found_input=False)
     for a, b, obj in cases:
         r = obj["res"]
         ctx.case(obj["text"], nontrivial=(r[0] != "toks" or len(r[1]) > 0),
                  sample={"shape": obj["shape"], "text": obj["text"][:80], "python": (b[:200] + "...") if len(b) > 200 else b})
-    ctx.obligation("correspondence: model = tokenizer.tokenize on %d texts (token lists with positions / error spans)" % len(cases), not bad)
 
     # ---- deciding ------------------------------------------------------------------------
     # candidates for a concrete failing text, smallest first
@@ -327,9 +462,12 @@ def run(ctx):
     for text, why, shape in py_fail:
         found.append((text, why, shape))
     bad_idx = {idx for idx, _ in bad}
-    order = sorted(range(len(cases)), key=lambda i: (i not in bad_idx, len(cases[i][2]["text"])))
+    budget = 8000 if ctx.thorough() else 1500
+    if need_search:
+        order = sorted(range(len(cases)), key=lambda i: (i not in bad_idx, len(cases[i][2]["text"])))
+    else:
+        order = list(range(0, len(cases), max(1, len(cases) // budget)))
     n_inv = 0
-    budget = 6000 if ctx.thorough() else 1200
     t_search = time.time()
     for i in order:
         obj = cases[i][2]
